@@ -2730,11 +2730,23 @@ fn format_slice(
 {
 	if let Some(ValueType::Char8) = argument.value_type().get_element_type()
 	{
-		let slice = Expression::Autocoerce {
-			expression: Box::new(argument.clone()),
-			coerced_type: ValueType::for_string_slice(),
+		let slice = match argument
+		{
+			// A value that was coerced already (such as `file!()`).
+			Expression::Autocoerce { coerced_type, .. }
+				if coerced_type == &ValueType::for_string_slice() =>
+			{
+				argument.generate(llvm)?
+			}
+			_ =>
+			{
+				let slice = Expression::Autocoerce {
+					expression: Box::new(argument.clone()),
+					coerced_type: ValueType::for_string_slice(),
+				};
+				slice.generate(llvm)?
+			}
 		};
-		let slice = slice.generate(llvm)?;
 		let (slice_ptr, slice_len) =
 			generate_ptr_and_len_from_slice(slice, llvm)?;
 		buffer.add_specifier("%.*s");
